@@ -87,6 +87,8 @@ struct Driver {
     cookie: usize,
     gc_requested: bool,
     pending_sys: Option<crate::sysfault::SysFault>,
+    /// the artifact directory as the previous iteration of the loop left it
+    last_tree: Option<world::TreeSnapshot>,
     sys_armed: bool,
     fault_since_clean_probe: bool,
     violations: Vec<Violation>,
@@ -137,6 +139,7 @@ impl Driver {
             cookie: 100,
             gc_requested: false,
             pending_sys: None,
+            last_tree: None,
             sys_armed: false,
             fault_since_clean_probe: false,
             violations: vec![],
@@ -230,8 +233,12 @@ impl Driver {
                 self.emit_rename(from, to);
                 self.folder_event_seen = true;
             }
-            EdOp::WriteSchema(_) | EdOp::WriteExt(_) => {
-                let path = if matches!(op, EdOp::WriteSchema(_)) { w.abs("schema.graphql") } else { w.abs("schema-ext.graphql") };
+            EdOp::WriteSchema(_) | EdOp::WriteExt(_) | EdOp::WriteConfig(_) => {
+                let path = match op {
+                    EdOp::WriteSchema(_) => w.abs("schema.graphql"),
+                    EdOp::WriteExt(_) => w.abs("schema-ext.graphql"),
+                    _ => w.abs("isograph.config.json"),
+                };
                 self.push_raw(ev(EventKind::Modify(ModifyKind::Data(DataChange::Any)), &path));
                 self.push_raw(ev(EventKind::Access(AccessKind::Open(AccessMode::Any)), &path));
                 self.push_raw(ev(EventKind::Modify(ModifyKind::Data(DataChange::Any)), &path));
@@ -573,7 +580,20 @@ pub fn run(case: &WatchCase, tag: u64) -> Outcome {
                     crate::sysfault::arm(&dir, d.pending_sys.take());
                     d.sys_armed = true;
                 }
-                if let Some(tx) = &d.sender {
+                let restarts_watcher = matches!(&b.events, Ok(evs) if isograph_compiler::watch::has_config_changes(evs));
+                if restarts_watcher {
+                    // the loop will build a new compiler state and ask for a new watcher: the
+                    // simulator hands it a new receiver and keeps the sending side; the new
+                    // watcher categorises with the configuration as it is on disk now
+                    let (tx2, rx2) = tokio::sync::mpsc::channel::<WatchBatch>(64);
+                    verif_hooks::inject_watch_receiver(rx2);
+                    if let Some(tx) = &d.sender {
+                        tx.try_send(b.events).unwrap_or_else(|_| panic!("harness: channel full"));
+                    }
+                    d.sender = Some(tx2);
+                    d.config = cx::config_for(&d.world()).0;
+                    d.bump("probe.config_change_restarts_compiler_state");
+                } else if let Some(tx) = &d.sender {
                     tx.try_send(b.events).unwrap_or_else(|_| panic!("harness: channel full"));
                 }
             }
@@ -599,6 +619,23 @@ pub fn run(case: &WatchCase, tag: u64) -> Outcome {
             } else {
                 d.bump("sys_faults_not_reached");
             }
+        }
+        // C17 in watch mode: an iteration whose compile reports diagnostics leaves the artifact
+        // directory as the previous iteration left it
+        {
+            let tree = world::snapshot(&d.world().artifact_dir());
+            let failed = matches!(cx::view_of_db(&state.db), View::Diagnostics(_));
+            if failed {
+                if let Some(before) = d.last_tree.clone() {
+                    if before != tree {
+                        let step = d.next_step;
+                        d.violations.push(Violation { property: "C17", kind: "failed-compile-changed-artifacts", detail: format!("a watch-mode recompile reported diagnostics and the artifact directory changed: {} files before, {} after", before.files.len(), tree.files.len()), step });
+                    } else {
+                        d.bump("failed_recompiles_checked_untouched");
+                    }
+                }
+            }
+            d.last_tree = Some(tree);
         }
         d.batches_processed += 1;
         let k = d.batches_processed as usize;
@@ -687,11 +724,16 @@ pub fn generate(seed: u64) -> WatchCase {
     }
     let non_source = rng.chance(1, 2);
     let atomic_saves = rng.chance(1, 2);
+    // Environment boundary: the configuration branch of the loop builds a new compiler state
+    // with `?`; while the tree holds a source file that cannot be read (non-UTF-8) that ends
+    // the watcher. Configuration edits are not among the changes C20 lists, so histories that
+    // edit the configuration never hold such a file (binary contents keep non-source names).
+    let config_edits = rng.chance(1, 3);
     let n = rng.range(3, 22);
     let mut steps = Vec::new();
     for _ in 0..n {
         let after_ms = *rng.pick(&[0u16, 1, 3, 10, 30, 60, 90, 120, 200, 400]);
-        let path = if non_source && rng.chance(1, 4) { *rng.pick(&[9usize, 10, 11, 12, 13, 14, 18, 18]) } else { *rng.pick(&[0usize, 1, 2, 3, 4, 5, 6, 7, 8, 15, 16, 17]) };
+        let path = if non_source && rng.chance(1, 4) { if config_edits { *rng.pick(&[9usize, 10, 12, 13, 14]) } else { *rng.pick(&[9usize, 10, 11, 12, 13, 14, 18, 18]) } } else { *rng.pick(&[0usize, 1, 2, 3, 4, 5, 6, 7, 8, 15, 16, 17]) };
         let step = match rng.weighted(&w) {
             0 if atomic_saves && rng.chance(1, 3) => WStep::Edit { op: EdOp::AtomicSave(path, crate::session::gen_snippet(&mut rng)), after_ms },
             0 => WStep::Edit { op: EdOp::Write(path, crate::session::gen_snippet(&mut rng)), after_ms },
@@ -700,7 +742,15 @@ pub fn generate(seed: u64) -> WatchCase {
             3 => WStep::Edit { op: EdOp::MkDir(rng.below(DIRS.len() as u64) as usize), after_ms },
             4 => WStep::Edit { op: EdOp::RmDirAll(rng.below(DIRS.len() as u64) as usize), after_ms },
             5 => WStep::Edit { op: EdOp::RenameDir(rng.below(DIRS.len() as u64) as usize, rng.below(DIRS.len() as u64) as usize), after_ms },
-            6 => WStep::Edit { op: if rng.chance(2, 3) { EdOp::WriteSchema(*rng.pick(&[0usize, 0, 0, 1, 1, 2, 3])) } else { EdOp::WriteExt(*rng.pick(&[0usize, 0, 1, 1, 2])) }, after_ms },
+            6 => WStep::Edit {
+                op: match rng.below(8) {
+                    0 | 1 | 2 | 3 => EdOp::WriteSchema(*rng.pick(&[0usize, 0, 0, 1, 1, 2, 3])),
+                    4 | 5 => EdOp::WriteExt(*rng.pick(&[0usize, 0, 1, 1, 2])),
+                    _ if config_edits => EdOp::WriteConfig(rng.below(32) as u8),
+                    _ => EdOp::WriteSchema(0),
+                },
+                after_ms,
+            },
             7 => WStep::Gc,
             9 => {
                 use crate::sysfault::{SysFault, SysKind};
